@@ -1,4 +1,10 @@
-"""C14 — ui.json round trip: mapper tables of the write and read pipelines are inverse; sentinel collisions."""
+"""C14 — ui.json round trip: mapper tables of the write and read pipelines are inverse; sentinel collisions.
+
+The rules decide by what the anchored functions DO (see _c14_sem.py): the mapper tables are whatever ordered lists of
+functions reach `dict_mapper(value, <list>)` from the pipeline function or a private helper of it (literal, local,
+module / class constant); tokens are the constants a mapper returns / compares its argument with; conditions are
+compared as truth tables over the form members they consult; locals are followed through their reaching definitions.
+"""
 
 from __future__ import annotations
 
@@ -6,6 +12,21 @@ import ast
 
 from ..model import AnalysisError, unparse
 from ..report import RuleResult
+from ._c14_sem import (
+    Flow,
+    NotBoolean,
+    applied_lists,
+    assignments,
+    bool_table,
+    call_name,
+    closure,
+    compared_tokens,
+    flow_of,
+    mentions,
+    raw_closure,
+    result_leaves,
+    str_constants,
+)
 
 EXTRA_PAIRS = {"as_str_if_uuid": "str2uuid"}  # pairs not following the a2b / b2a naming
 ONE_WAY = {
@@ -26,46 +47,125 @@ def _inverse_name(name: str) -> str | None:
     return None
 
 
+class Site:
+    """Where a mapper table is written down: `.value` is the list / tuple literal, `.module` the module holding it."""
+
+    def __init__(self, value, module):
+        self.value = value
+        self.module = module
+
+
+class Pipe(tuple):
+    """(names, function, site) — names: every mapper some call applies, in order; `.every`: those EVERY call applies;
+    `.lists`: the table of each `dict_mapper` call reached from the function."""
+
+    def __new__(cls, names, fn, site, lists=None):
+        self = super().__new__(cls, (names, fn, site))
+        self.lists = lists if lists is not None else [names]
+        self.every = {n for n in names if all(n in l for l in self.lists)}
+        return self
+
+
+def mapper_lists(p, fn):
+    """The mapper tables of a pipeline function: the function lists handed to dict_mapper(...) by the function or by a
+    private helper extracted from it, wherever the list is written down."""
+    got = applied_lists(p, fn)
+    if not got:
+        raise AnalysisError(f"{fn.where}: no mapper list handed to dict_mapper(...) found in {fn.qualname}")
+    return got
+
+
 def mapper_list(p, fn):
-    """Names in the `mappers = [...]` list literal of a function (List/Tuple of names, or a module constant)."""
-    # the mapper list: the local that is handed to dict_mapper(...) (or iterated), whatever it is called
-    used = set()
-    for c in ast.walk(fn.node):
-        if isinstance(c, ast.Call) and (getattr(c.func, "id", None) == "dict_mapper" or getattr(c.func, "attr", None) == "dict_mapper"):
-            used |= {a.id for a in c.args if isinstance(a, ast.Name)} | {k.value.id for k in c.keywords if isinstance(k.value, ast.Name)}
-    for n in ast.walk(fn.node):
-        if isinstance(n, ast.Assign) and any(isinstance(t, ast.Name) and (t.id == "mappers" or t.id in used) for t in n.targets) \
-                and (isinstance(n.value, (ast.List, ast.Tuple)) or (isinstance(n.value, ast.Name) and n.value.id.isupper())):
-            v = n.value
-            if isinstance(v, ast.Name):
-                r = p.resolve_name(fn.module, v.id)
-                if r and r[0] == "assign":
-                    v = r[1][1]
-            if isinstance(v, (ast.List, ast.Tuple)) and all(isinstance(e, ast.Name) for e in v.elts):
-                return [e.id for e in v.elts], n
-            raise AnalysisError(f"{fn.where}: unrecognised `mappers` initialiser {unparse(v)[:60]}")
-    raise AnalysisError(f"{fn.where}: no `mappers = [...]` found in {fn.qualname}")
+    """(names, site) of the mapper table of a function (the first one when several calls carry their own)."""
+    got = mapper_lists(p, fn)
+    return got[0][0], Site(got[0][1], got[0][2])
+
+
+def _pipe(p, fn):
+    got = mapper_lists(p, fn)
+    names = list(dict.fromkeys(n for g in got for n in g[0]))
+    if all(g[0] == got[0][0] for g in got):
+        names = list(got[0][0])  # keeps repetitions of the one table
+    return Pipe(names, fn, Site(got[0][1], got[0][2]), [g[0] for g in got])
 
 
 def pipelines(ctx):
+    if "c14.pipelines" in ctx.cache:
+        return ctx.cache["c14.pipelines"]
     p = ctx.p
     IF = p.cls("InputFile")
     demote = IF.methods.get("demote")
     numify = IF.methods.get("numify")
     strfy = p.module("shared/utils.py").functions.get("stringify")
+    if strfy is None and IF.methods.get("stringify") is not None:
+        r = p.resolve_name(IF.module, "stringify")
+        strfy = r[1] if r and r[0] == "func" else IF.methods.get("stringify")
     if not (demote and numify and strfy):
         raise AnalysisError("C14: anchors InputFile.demote / numify / shared.utils.stringify not found")
-    d, dn = mapper_list(p, demote)
-    s, sn = mapper_list(p, strfy)
-    r, rn = mapper_list(p, numify)
-    promo = IF.methods.get("_uid_promotion")
-    pr = [c.func.id for c in ast.walk(promo.node) if isinstance(c, ast.Call) and isinstance(c.func, ast.Name) and c.func.id.startswith("uuid2")] if promo else []
-    return {"demote": (d, demote, dn), "stringify": (s, strfy, sn), "numify": (r, numify, rn), "promote": (pr, promo, None)}
+    # promotion: the uuid2* conversions reached from InputFile.promote (or its per-value helper)
+    promo = IF.methods.get("promote") or IF.methods.get("_uid_promotion")
+    pr = []
+    if promo is not None:
+        fns = raw_closure(p, promo)
+        if IF.methods.get("_uid_promotion") is not None and all(f.node is not IF.methods["_uid_promotion"].node for f in fns):
+            fns.append(IF.methods["_uid_promotion"])
+        for f in fns:
+            for c in ast.walk(f.node):
+                if isinstance(c, ast.Call) and (call_name(c) or "").startswith("uuid2") and call_name(c) not in pr:
+                    pr.append(call_name(c))
+    out = {"demote": _pipe(p, demote), "stringify": _pipe(p, strfy), "numify": _pipe(p, numify),
+           "promote": Pipe(pr, IF.methods.get("_uid_promotion") or promo, None)}
+    ctx.cache["c14.pipelines"] = out
+    return out
 
 
 def _func(p, fn_ctx, name):
     r = p.resolve_name(fn_ctx.module, name)
     return r[1] if r and r[0] == "func" else None
+
+
+def _mapper(ctx, pl, name):
+    """FuncInfo of a mapper named in one of the tables (resolved from the module that uses it)."""
+    for owner in ("demote", "stringify", "numify"):
+        f = _func(ctx.p, pl[owner][1], name)
+        if f is not None:
+            return f
+    for short in ("shared/utils.py", "ui_json/utils.py"):
+        f = ctx.p.module(short).functions.get(name)
+        if f is not None:
+            return f
+    return None
+
+
+def _view(ctx, fn):
+    return ctx.view(fn) if hasattr(ctx, "view") else fn
+
+
+def _returned_tokens(ctx, fn):
+    """String constants a mapper can return as such (through locals and conditional expressions)."""
+    v = _view(ctx, fn)
+    return {l.value for l in result_leaves(v.node, flow_of(ctx, v)) if isinstance(l, ast.Constant) and isinstance(l.value, str)}
+
+
+def _recognised_tokens(ctx, fn):
+    v = _view(ctx, fn)
+    return compared_tokens(v.node, v.params[0], flow_of(ctx, v))
+
+
+def _dumped_is_stringify_of_demote(ctx, w):
+    """(found a site, ok): what write_ui_json hands to json.dump is stringify(demote(...)), through any locals / helper."""
+    v = _view(ctx, w)
+    flow = flow_of(ctx, v)
+
+    def is_nest(e):
+        r = flow.resolve(e)
+        return isinstance(r, ast.Call) and call_name(r) == "stringify" and bool(r.args) and isinstance(r.args[0], ast.Call) and call_name(r.args[0]) == "demote"
+
+    dumps = [c for c in ast.walk(v.node) if isinstance(c, ast.Call) and call_name(c) in ("dump", "dumps") and c.args
+             and (isinstance(c.func, ast.Name) or unparse(c.func.value) == "json")]
+    if dumps:
+        return all(is_nest(c.args[0]) for c in dumps)
+    return any(isinstance(c, ast.Call) and call_name(c) == "stringify" and is_nest(c) for c in ast.walk(v.node))
 
 
 def rule_inv(ctx) -> RuleResult:
@@ -80,7 +180,9 @@ def rule_inv(ctx) -> RuleResult:
     pl = pipelines(ctx)
     W = pl["demote"][0] + pl["stringify"][0]
     Rd = pl["numify"][0] + pl["promote"][0]
-    for side, names, other, what in (("write", W, Rd, "read"), ("read", Rd, W, "write")):
+    W_every = pl["demote"].every | pl["stringify"].every
+    R_every = pl["numify"].every | pl["promote"].every
+    for side, names, other, what in (("write", W, R_every, "read"), ("read", Rd, W_every, "write")):
         for nm in dict.fromkeys(names):
             if nm in ONE_WAY:
                 res.inst(f"{side} mapper {nm}: one-way by design")
@@ -96,55 +198,117 @@ def rule_inv(ctx) -> RuleResult:
                 res.find(fn.cls.name if fn.cls else "utils", fn.name, f"{side} mapper {nm} has no inverse {inv} in the {what} pipeline", fn.where,
                          f"values converted by {nm} when {'writing' if side == 'write' else 'reading'} a ui.json are not converted back "
                          f"when {'reading' if side == 'write' else 'writing'} it")
-    # ordering in demote
-    d = pl["demote"][0]
+    # ordering in demote (in every table demote applies)
     fn = pl["demote"][1]
-    if "entity2uuid" in d and "as_str_if_uuid" in d:
-        ok = d.index("entity2uuid") < d.index("as_str_if_uuid")
+    tables = pl["demote"].lists
+    if any("entity2uuid" in d and "as_str_if_uuid" in d for d in tables):
+        ok = all(d.index("entity2uuid") < d.index("as_str_if_uuid") for d in tables if "entity2uuid" in d and "as_str_if_uuid" in d)
         res.inst("demote: entity2uuid before as_str_if_uuid", ok=ok)
         if not ok:
             res.find("InputFile", "demote", "as_str_if_uuid runs before entity2uuid", fn.where,
                      "entities are demoted to raw UUID objects that json cannot serialise / are not wrapped in braces")
-    if "container_group2name" in d and "entity2uuid" in d:
-        ok = d.index("entity2uuid") < d.index("container_group2name")
+    if any("container_group2name" in d and "entity2uuid" in d for d in tables):
+        ok = all(d.index("entity2uuid") < d.index("container_group2name") for d in tables if "container_group2name" in d and "entity2uuid" in d)
         res.inst("demote: container_group2name after entity2uuid (shadowed)", ok=ok)
         if not ok:
             res.find("InputFile", "demote", "container_group2name runs before entity2uuid", fn.where,
                      "container groups are written by name and cannot be promoted back to the same entity")
-    # nesting order in write_ui_json: stringify(demote(x))
+    # nesting order in write_ui_json: what is dumped is stringify(demote(x))
     w = p.cls("InputFile").methods.get("write_ui_json")
-    nest = [c for c in ast.walk(w.node) if isinstance(c, ast.Call) and isinstance(c.func, ast.Attribute) and c.func.attr == "stringify"
-            and c.args and isinstance(c.args[0], ast.Call) and isinstance(c.args[0].func, ast.Attribute) and c.args[0].func.attr == "demote"]
-    ok = bool(nest)
+    if w is None:
+        raise AnalysisError("C14: anchor InputFile.write_ui_json not found")
+    ok = _dumped_is_stringify_of_demote(ctx, w)
     res.inst("write_ui_json: json.dump(stringify(demote(ui_json)))", ok=ok)
     if not ok:
         res.find("InputFile", "write_ui_json", "write pipeline is not stringify(demote(...))", w.where,
                  "entities / workspaces reach json.dump undemoted or None/inf unstringified")
     # read: the ui_json setter numifies every assignment
     st = p.cls("InputFile").props["ui_json"].setter
-    ok = any(isinstance(c, ast.Call) and isinstance(c.func, ast.Attribute) and c.func.attr == "numify" for c in ast.walk(st.node))
+    ok = any(isinstance(c, ast.Call) and call_name(c) == "numify" for f in closure(ctx, st) for c in ast.walk(f.node))
     res.inst("InputFile.ui_json setter applies numify", ok=ok)
     if not ok:
         res.find("InputFile", "ui_json", "setter does not numify", st.where, "strings written for None / inf / uuids are not converted back on load")
     # tokens
-    um = p.module("shared/utils.py")
-    uj = p.module("ui_json/utils.py")
-    n2s, s2n = um.functions.get("none2str"), um.functions.get("str2none")
+    n2s, s2n = _mapper(ctx, pl, "none2str"), _mapper(ctx, pl, "str2none")
     if n2s and s2n:
-        wtok = {r.value.value for r in ast.walk(n2s.node) if isinstance(r, ast.Return) and isinstance(r.value, ast.Constant) and isinstance(r.value.value, str)}
-        rtok = {c.comparators[0].value for c in ast.walk(s2n.node) if isinstance(c, ast.Compare) and isinstance(c.comparators[0], ast.Constant)}
+        wtok = _returned_tokens(ctx, n2s)
+        rtok = set(_recognised_tokens(ctx, s2n))
         ok = wtok == rtok and len(wtok) == 1
-        res.inst(f"none2str writes {sorted(wtok)}, str2none reads {sorted(rtok)}", ok=ok)
+        res.inst(f"none2str writes {sorted(wtok)}, str2none reads {sorted(map(str, rtok))}", ok=ok)
         if not ok:
-            res.find("utils", "none2str", f"token mismatch {sorted(wtok)} vs {sorted(rtok)}", n2s.where, "None is written as a token the reader does not map back")
-    s2i = uj.functions.get("str2inf")
+            res.find("utils", "none2str", f"token mismatch {sorted(wtok)} vs {sorted(map(str, rtok))}", n2s.where, "None is written as a token the reader does not map back")
+    s2i = _mapper(ctx, pl, "str2inf")
     if s2i:
-        toks = {e.value for n in ast.walk(s2i.node) if isinstance(n, (ast.List, ast.Tuple, ast.Set)) for e in n.elts if isinstance(e, ast.Constant)}
+        toks = {t for t in _recognised_tokens(ctx, s2i) if isinstance(t, str)}
         ok = {"inf", "-inf"} <= toks
         res.inst(f"str2inf accepts {sorted(toks)} (str(float('inf')), str(float('-inf')))", ok=ok)
         if not ok:
             res.find("utils", "str2inf", f"tokens {sorted(toks)} miss 'inf'/'-inf'", s2i.where, "an infinity written by inf2str stays a string after reading")
     return res
+
+
+def _canon_param(node, prm):
+    """Text of an expression with the mapper's parameter spelled `value`."""
+    import copy
+
+    class R(ast.NodeTransformer):
+        def visit_Name(self, n):
+            return ast.copy_location(ast.Name(id="value", ctx=n.ctx), n) if n.id == prm else n
+
+    return unparse(R().visit(copy.deepcopy(node)))
+
+
+def recognitions(ctx, rfn) -> list:
+    """How a read mapper recognises a string by VALUE, in a canonical spelling that does not depend on the parameter's
+    name, on the polarity of the test (guard clause / De Morgan), on hoisted constants or on temporaries:
+    `value == 'tok'` / `value in ['t1', 't2']` / `is_uuid(value)` / `Path(value).suffix == '.ext'`."""
+    v = _view(ctx, rfn)
+    flow = flow_of(ctx, v)
+    prm = v.params[0]
+    out = []
+
+    def from_param(e):
+        return mentions(e, prm) or mentions(flow.resolve(e), prm)
+
+    toks = compared_tokens(v.node, prm, flow)
+    if len(toks) == 1:
+        out.append(f"value == {toks[0]!r}")
+    elif toks:
+        out.append("value in [" + ", ".join(sorted((repr(t) for t in toks), key=lambda s: (len(s), s))) + "]")
+    # comparisons of the parameter with something that is not a literal
+    for n in ast.walk(v.node):
+        if isinstance(n, ast.Compare) and len(n.ops) == 1 and isinstance(n.ops[0], (ast.Eq, ast.NotEq, ast.In, ast.NotIn)) \
+                and isinstance(n.left, ast.Name) and (n.left.id == prm or unparse(flow.resolve(n.left)) == prm):
+            r = flow.resolve(n.comparators[0])
+            lit = isinstance(r, ast.Constant) or (isinstance(r, (ast.List, ast.Tuple, ast.Set)) and all(isinstance(e, ast.Constant) for e in r.elts)) \
+                or (isinstance(r, ast.Dict) and all(isinstance(k, ast.Constant) for k in r.keys))
+            if not lit:
+                op = "==" if isinstance(n.ops[0], (ast.Eq, ast.NotEq)) else "in"
+                out.append(f"value {op} {_canon_param(r, prm)}")
+    for n in ast.walk(v.node):
+        # is_uuid(value), or the same test spelled as an attempted conversion: try: UUID(value) except ValueError
+        attempt = isinstance(n, ast.Try) and any(isinstance(c, ast.Call) and call_name(c) == "UUID" and c.args and from_param(c.args[0])
+                                                 for st in n.body for c in ast.walk(st))
+        if (isinstance(n, ast.Call) and call_name(n) == "is_uuid") or attempt:
+            s = "is_uuid(value)"
+            if s not in out:
+                out.append(s)
+    for n in ast.walk(v.node):
+        if isinstance(n, ast.Compare) and len(n.ops) == 1:
+            sides = [flow.resolve(n.left), flow.resolve(n.comparators[0])]
+            for i, s in enumerate(sides):
+                if any(isinstance(x, ast.Attribute) and x.attr in ("suffix", "suffixes") for x in ast.walk(s)):
+                    o = sides[1 - i]
+                    txt = f"Path(value).suffix == {o.value!r}" if isinstance(o, ast.Constant) else f"Path(value).suffix ~ {_canon_param(o, prm)}"
+                    if txt not in out:
+                        out.append(txt)
+                    break
+        elif isinstance(n, ast.Call) and call_name(n) == "endswith" and isinstance(n.func, ast.Attribute) and from_param(n.func.value) and n.args:
+            o = flow.resolve(n.args[0])
+            txt = f"Path(value).suffix == {o.value!r}" if isinstance(o, ast.Constant) else f"Path(value).suffix ~ {_canon_param(o, prm)}"
+            if txt not in out:
+                out.append(txt)
+    return out
 
 
 def rule_collide(ctx) -> RuleResult:
@@ -157,32 +321,26 @@ def rule_collide(ctx) -> RuleResult:
     )
     p = ctx.p
     pl = pipelines(ctx)
-    um = p.module("shared/utils.py")
     for rname in dict.fromkeys(pl["numify"][0]):
         owner = pl["numify"][1]
         rfn = _func(p, owner, rname)
-        if rfn is None:
+        if rfn is None or not rfn.params:
             continue
-        prm = rfn.params[0]
         # the reader recognises strings by value: == "tok" / in ["tok", ...] / is_uuid(value) / suffix test
-        recog = []
-        for n in ast.walk(rfn.node):
-            if isinstance(n, ast.Compare) and unparse(n.left) == prm and isinstance(n.ops[0], (ast.Eq, ast.In)):
-                recog.append(unparse(n))
-            if isinstance(n, ast.Call) and isinstance(n.func, ast.Name) and n.func.id == "is_uuid":
-                recog.append(unparse(n))
-            if isinstance(n, ast.Compare) and "suffix" in unparse(n.left):
-                recog.append(unparse(n))
+        recog = recognitions(ctx, rfn)
         wname = _inverse_name(rname)
         wfn = _func(p, pl["demote"][1], wname) or _func(p, pl["stringify"][1], wname) if wname else None
-        if not recog or wfn is None:
+        if not recog or wfn is None or not wfn.params:
             res.inst(f"{rname}: no value-based recognition of strings")
             continue
         # does the writer escape genuine strings?  (it must transform str inputs to be injective)
-        wprm = wfn.params[0]
-        passes_through = any(isinstance(r, ast.Return) and unparse(r.value) == wprm for r in ast.walk(wfn.node))
-        escapes = any(isinstance(n, ast.Call) and isinstance(n.func, ast.Name) and n.func.id == "isinstance" and unparse(n.args[0]) == wprm
-                      and "str" in unparse(n.args[1]) for n in ast.walk(wfn.node))
+        wv = _view(ctx, wfn)
+        wflow = flow_of(ctx, wv)
+        wprm = wv.params[0]
+        passes_through = any(isinstance(l, ast.Name) and l.id == wprm for l in result_leaves(wv.node, wflow))
+        escapes = any(isinstance(n, ast.Call) and isinstance(n.func, ast.Name) and n.func.id == "isinstance" and len(n.args) == 2
+                      and (unparse(n.args[0]) == wprm or unparse(wflow.resolve(n.args[0])) == wprm)
+                      and "str" in unparse(n.args[1]) for n in ast.walk(wv.node))
         collide = passes_through and not escapes
         res.inst(f"{wname} / {rname}: reader recognises {recog[0]}; writer escapes strings: {escapes}", nontrivial=True, ok=not collide)
         if collide:
@@ -190,6 +348,163 @@ def rule_collide(ctx) -> RuleResult:
                      f"{wname} maps a non-string to a string and lets genuine strings through unchanged, {rname} maps every string "
                      f"satisfying `{recog[0]}` back: a string parameter with such a value does not round-trip")
     return res
+
+
+# ---------------------------------------------------------------------------------------------------------------- FLAT
+def _truth_defaults(ctx, uj):
+    """member -> default of ui_json.utils.truth (the dict literal of constant keys it consults)."""
+    t = uj.functions.get("truth")
+    out = {}
+    if t is not None:
+        for n in ast.walk(_view(ctx, t).node):
+            if isinstance(n, ast.Dict) and n.keys and all(isinstance(k, ast.Constant) and isinstance(v, ast.Constant) for k, v in zip(n.keys, n.values)):
+                out.update({k.value: v.value for k, v in zip(n.keys, n.values)})
+    return out
+
+
+def _none_sites(fn_node):
+    """Places of a function where None is produced under a condition:
+    [(conditions [(test, polarity)] outermost first, line, strong)] — strong: `x[k] = None` directly in a branch."""
+    sites = []
+
+    def is_none(e):
+        return isinstance(e, ast.Constant) and e.value is None
+
+    def exprs_of(st):
+        """expressions evaluated by the statement itself (not by nested statements)"""
+        for fld, val in ast.iter_fields(st):
+            if fld in ("body", "orelse", "finalbody", "handlers"):
+                continue
+            for x in (val if isinstance(val, list) else [val]):
+                if isinstance(x, ast.AST):
+                    yield x
+
+    def ifexps(e, stack, line):
+        if isinstance(e, ast.IfExp):
+            for br, pol in ((e.body, True), (e.orelse, False)):
+                if is_none(br):
+                    sites.append((stack + [(e.test, pol)], line, False))
+            ifexps(e.test, stack, line)
+            ifexps(e.body, stack + [(e.test, True)], line)
+            ifexps(e.orelse, stack + [(e.test, False)], line)
+            return
+        for ch in ast.iter_child_nodes(e):
+            ifexps(ch, stack, line)
+
+    def overrides(target, later):
+        """conditions under which a later `if` of the same block does NOT store the target again"""
+        out = []
+        txt = unparse(target)
+        for g in later:
+            if isinstance(g, ast.If):
+                hit = [any(isinstance(s, ast.Assign) and any(unparse(t) == txt for t in s.targets) for s in br) for br in (g.body, g.orelse)]
+                if hit[0] != hit[1]:
+                    out.append((g.test, not hit[0]))
+                elif hit[0] and hit[1]:
+                    return None  # always stored again: the None never survives
+        return out
+
+    def block(stmts, stack, own=False):
+        """own: the block is a branch of the `if` whose (test, polarity) ends the stack"""
+        for i, st in enumerate(stmts):
+            if isinstance(st, (ast.FunctionDef, ast.AsyncFunctionDef, ast.ClassDef)):
+                continue
+            for e in exprs_of(st):
+                if not (isinstance(st, ast.If) and e is st.test):
+                    ifexps(e, stack, st.lineno)
+            if isinstance(st, ast.Assign) and is_none(st.value) and isinstance(st.targets[0], (ast.Subscript, ast.Name)):
+                strong = isinstance(st.targets[0], ast.Subscript)
+                ov = overrides(st.targets[0], stmts[i + 1:])
+                if ov:  # `x = None` then `if T: x = live`  ==  `if T: x = live  else: x = None`
+                    sites.append((stack + ov, st.lineno, strong))
+                elif ov is not None and own:
+                    sites.append((stack, st.lineno, strong))
+            elif isinstance(st, ast.Return) and (st.value is None or is_none(st.value)) and own:
+                sites.append((stack, st.lineno, False))
+            if isinstance(st, ast.If):
+                for br, pol in ((st.body, True), (st.orelse, False)):
+                    block(br, stack + [(st.test, pol)], True)
+                continue
+            for fld in ("body", "orelse", "finalbody"):
+                blk = getattr(st, fld, None)
+                if isinstance(blk, list) and blk and isinstance(blk[0], ast.stmt):
+                    block(blk, stack)
+            for h in getattr(st, "handlers", []) or []:
+                block(h.body, stack)
+
+    block(fn_node.body, [])
+    return sites
+
+
+def _check_flatten(ctx, res, uj, fl):
+    defaults = _truth_defaults(ctx, uj)
+    ngates = 0
+    for v in closure(ctx, fl):
+        flow = flow_of(ctx, v)
+
+        def atom_of(e):
+            """`m:<member>` for truth(ui_json, name, "<member>") (or the equivalent form.get("<member>", <truth's default>))"""
+            if isinstance(e, ast.Call) and call_name(e) == "truth":
+                m = e.args[2] if len(e.args) == 3 else next((k.value for k in e.keywords if k.arg == "member"), None)
+                if isinstance(m, ast.Constant) and isinstance(m.value, str):
+                    return "m:" + m.value
+                return None
+            if isinstance(e, ast.Call) and call_name(e) == "get" and isinstance(e.func, ast.Attribute) and len(e.args) == 2 \
+                    and isinstance(e.args[0], ast.Constant) and isinstance(e.args[1], ast.Constant) \
+                    and e.args[0].value in defaults and defaults[e.args[0].value] == e.args[1].value:
+                return "m:" + e.args[0].value
+            return None
+
+        def ctx_atom(e):
+            return atom_of(e) or "?" + unparse(e)
+
+        for conds, line, strong in _none_sites(v.node):
+            where = f"{v.module.relpath}:{line}"
+            own = flow.resolve(conds[-1][0], flow.node_of(conds[-1][0]))
+            try:
+                own_atoms, _ = bool_table(own, ctx_atom)
+            except NotBoolean:  # pragma: no cover - ctx_atom accepts every leaf
+                own_atoms = []
+            if not any(a.startswith("m:") for a in own_atoms):
+                if strong:
+                    raise AnalysisError(f"{v.qualname}:{line}: None gate `{unparse(conds[-1][0])[:60]}` not recognised")
+                continue  # some other conditional None, not the enabled gate
+            # the condition under which None is produced: the gate's own test and the enclosing tests that consult form members
+            parts = []
+            for test, pol in conds:
+                r = flow.resolve(test, flow.node_of(test))
+                atoms, f = bool_table(r, ctx_atom)
+                if test is conds[-1][0] or any(a.startswith("m:") for a in atoms):
+                    parts.append((atoms, f, pol))
+            atoms = list(dict.fromkeys(a for at, _, _ in parts for a in at))
+
+            def none_when(env, parts=parts):
+                return all(bool(f(env)) == pol for _, f, pol in parts)
+
+            envs = list(assignments(atoms))
+            members = [a[2:] for a in atoms if a.startswith("m:")]
+            depends = [m for m in members if any(none_when(e) != none_when({**e, "m:" + m: not e["m:" + m]}) for e in envs)]
+            others = [m for m in depends if m != "enabled"]
+            ngates += 1
+            if others or any(m != "enabled" for m in members):
+                listed = [m for m in members]
+                res.inst(f"flatten:{line} None gate depends on {listed}", nontrivial=True, ok=not others)
+                if others:
+                    res.find("utils", "flatten", f"the None gate also depends on the form member(s) {others}", where,
+                             f"a disabled form flattens to None only when {others} also has a given state: disabled members of an optional group or "
+                             "dependency-disabled forms come back with live values and are re-enabled on the next write")
+                    continue
+            ok = "enabled" in depends and not any(none_when(e) and e["m:enabled"] for e in envs)
+            res.inst(f"flatten:{line} None stored iff not truth(.., 'enabled')", nontrivial=True, ok=ok)
+            if not ok:
+                res.find("utils", "flatten", f"None is stored under `{unparse(conds[-1][0])[:60]}`", where,
+                         "the flattened value is None for enabled forms / live for disabled ones")
+    if not ngates:
+        raise AnalysisError("ui_json.utils.flatten: the branch storing None for disabled forms was not recognised")
+
+
+def _key_is(sub, key) -> bool:
+    return isinstance(sub, ast.Subscript) and isinstance(sub.slice, ast.Constant) and sub.slice.value == key
 
 
 def rule_flat(ctx) -> RuleResult:
@@ -203,18 +518,28 @@ def rule_flat(ctx) -> RuleResult:
         floor=5,
     )
     p = ctx.p
-    um = p.module("shared/utils.py")
+    pl = pipelines(ctx)
     uj = p.module("ui_json/utils.py")
     # (a) tokens
-    i2s, s2i = um.functions.get("inf2str"), uj.functions.get("str2inf")
+    i2s, s2i = _mapper(ctx, pl, "inf2str"), _mapper(ctx, pl, "str2inf")
     if i2s is None or s2i is None:
         raise AnalysisError("anchors shared.utils.inf2str / ui_json.utils.str2inf not found")
-    prm = i2s.params[0]
-    rtok = {e.value for n in ast.walk(s2i.node) if isinstance(n, (ast.List, ast.Tuple, ast.Set)) for e in n.elts if isinstance(e, ast.Constant)}
-    generic = any(isinstance(c, ast.Call) and isinstance(c.func, ast.Name) and c.func.id in ("str", "repr") and c.args and unparse(c.args[0]) == prm
-                  for r in ast.walk(i2s.node) if isinstance(r, ast.Return) and r.value is not None for c in ast.walk(r.value))
-    consts = {c.value for r in ast.walk(i2s.node) if isinstance(r, ast.Return) and r.value is not None for c in ast.walk(r.value)
-              if isinstance(c, ast.Constant) and isinstance(c.value, str)}
+    iv = _view(ctx, i2s)
+    prm = iv.params[0]
+    rtok = {t for t in _recognised_tokens(ctx, s2i) if isinstance(t, str)}
+    leaves = result_leaves(iv.node, flow_of(ctx, iv))
+
+    def is_generic(leaf):
+        """str(value) / repr(value) / format(value) / f"{value}": the token is whatever python prints for the float"""
+        for c in ast.walk(leaf):
+            if isinstance(c, ast.Call) and isinstance(c.func, ast.Name) and c.func.id in ("str", "repr", "format") and len(c.args) == 1 and mentions(c.args[0], prm):
+                return True
+            if isinstance(c, ast.FormattedValue) and c.format_spec is None and mentions(c.value, prm):
+                return True
+        return False
+
+    generic = any(is_generic(l) for l in leaves)
+    consts = set().union(*[str_constants(l) for l in leaves if not is_generic(l)]) if leaves else set()
     ok = generic or (rtok and rtok <= consts)
     res.inst(f"inf2str emits {'str(value)' if generic else sorted(consts)}; str2inf reads {sorted(rtok)}", nontrivial=True, ok=bool(ok))
     if not ok:
@@ -224,69 +549,39 @@ def rule_flat(ctx) -> RuleResult:
     fl = uj.functions.get("flatten")
     if fl is None:
         raise AnalysisError("anchor ui_json.utils.flatten not found")
-
-    def is_none_store(st):
-        return isinstance(st, ast.Assign) and isinstance(st.targets[0], ast.Subscript) and isinstance(st.value, ast.Constant) and st.value.value is None
-
-    def truth_member(e, aliases):
-        """member name if e is truth(ui_json, name, "<member>") or a local bound to it"""
-        if isinstance(e, ast.Name) and e.id in aliases:
-            e = aliases[e.id]
-        if isinstance(e, ast.Call) and getattr(e.func, "id", None) == "truth" and len(e.args) == 3 and isinstance(e.args[2], ast.Constant):
-            return e.args[2].value
-        return None
-
-    aliases = {}
-    for n in ast.walk(fl.node):
-        if isinstance(n, ast.Assign) and len(n.targets) == 1 and isinstance(n.targets[0], ast.Name) and isinstance(n.value, ast.Call) and getattr(n.value.func, "id", None) == "truth":
-            aliases[n.targets[0].id] = n.value
-    gates = [n for n in ast.walk(fl.node) if isinstance(n, ast.If) and (any(is_none_store(s) for s in n.body) or any(is_none_store(s) for s in n.orelse))]
-    if not gates:
-        raise AnalysisError("ui_json.utils.flatten: the branch storing None for disabled forms was not recognised")
-    for gt in gates:
-        none_in_body = any(is_none_store(s) for s in gt.body)
-        t = gt.test
-        neg = False
-        while isinstance(t, ast.UnaryOp) and isinstance(t.op, ast.Not):
-            neg = not neg
-            t = t.operand
-        m = truth_member(t, aliases)
-        if m is not None:
-            ok = m == "enabled" and (neg == none_in_body)
-            res.inst(f"flatten:{gt.lineno} None stored iff not truth(.., 'enabled')", nontrivial=True, ok=ok)
-            if not ok:
-                res.find("utils", "flatten", f"None is stored under `{unparse(gt.test)[:60]}`", f"{uj.relpath}:{gt.lineno}",
-                         "the flattened value is None for enabled forms / live for disabled ones")
-        elif isinstance(t, ast.BoolOp):
-            ms = [truth_member(v.operand if isinstance(v, ast.UnaryOp) else v, aliases) for v in t.values]
-            if all(x is not None for x in ms):
-                others = [x for x in ms if x != "enabled"]
-                res.inst(f"flatten:{gt.lineno} None gate depends on {ms}", nontrivial=True, ok=not others)
-                if others:
-                    res.find("utils", "flatten", f"the None gate also depends on the form member(s) {others}", f"{uj.relpath}:{gt.lineno}",
-                             f"a disabled form flattens to None only when {others} also has a given state: disabled members of an optional group or "
-                             "dependency-disabled forms come back with live values and are re-enabled on the next write")
-            else:
-                raise AnalysisError(f"ui_json.utils.flatten:{gt.lineno}: None gate `{unparse(gt.test)[:60]}` not recognised")
-        else:
-            raise AnalysisError(f"ui_json.utils.flatten:{gt.lineno}: None gate `{unparse(gt.test)[:60]}` not recognised")
+    _check_flatten(ctx, res, uj, fl)
     # (c) option defaults
     IF = p.cls("InputFile")
     vg = IF.props["validation_options"].getter
     defaults = {}
-    for n in ast.walk(vg.node):
-        if isinstance(n, ast.Dict) and n.keys and all(isinstance(k, ast.Constant) for k in n.keys):
-            for k, v in zip(n.keys, n.values):
-                defaults[k.value] = unparse(v)
+    for f in closure(ctx, vg):
+        for n in ast.walk(f.node):
+            if isinstance(n, ast.Dict) and n.keys and all(isinstance(k, ast.Constant) for k in n.keys):
+                for k, v in zip(n.keys, n.values):
+                    defaults[k.value] = unparse(v)
+            elif isinstance(n, ast.Call) and isinstance(n.func, ast.Name) and n.func.id == "dict" and n.keywords and not n.args:
+                for k in n.keywords:
+                    if k.arg:
+                        defaults[k.arg] = unparse(k.value)
     if "update_enabled" not in defaults:
         raise AnalysisError("InputFile.validation_options: default dictionary not found")
     nsite = 0
     for fn in p.all_functions():
         if not fn.module.relpath.startswith("geoh5py/ui_json"):
             continue
-        for c in ast.walk(fn.node):
-            if isinstance(c, ast.Call) and isinstance(c.func, ast.Attribute) and c.func.attr == "get" and unparse(c.func.value).endswith("validation_options") \
+        if "validation_options" not in fn.module.source:
+            continue
+        v = ctx.view(fn, inline=False) if hasattr(ctx, "view") else fn
+        flow = None
+        for c in ast.walk(v.node):
+            if isinstance(c, ast.Call) and isinstance(c.func, ast.Attribute) and c.func.attr == "get" \
                     and c.args and isinstance(c.args[0], ast.Constant) and c.args[0].value in defaults:
+                recv = unparse(c.func.value)
+                if not recv.endswith("validation_options") and isinstance(c.func.value, ast.Name):
+                    flow = flow or flow_of(ctx, v)
+                    recv = flow.text(c.func.value)  # a local alias of the options dictionary
+                if not recv.endswith("validation_options"):
+                    continue
                 k = c.args[0].value
                 d = unparse(c.args[1]) if len(c.args) > 1 else "None"
                 ok = d == defaults[k]
@@ -297,23 +592,47 @@ def rule_flat(ctx) -> RuleResult:
                              f"{fn.module.relpath}:{c.lineno}",
                              f"when the caller's options omit {k!r}, this site assumes {d} while the option's documented default is {defaults[k]}: "
                              "after the first read of .data the enabled states stop following the values on write")
-    if nsite < 2:
+    if nsite < 1:
         raise AnalysisError("validation_options.get(...) sites not found")
-    # save / restore around flatten in the data getter
+    # save / restore around flatten in the data getter (or in a private helper / context manager extracted from it)
     dg = IF.props["data"].getter
-    saves = [n for n in ast.walk(dg.node) if isinstance(n, ast.Assign) and isinstance(n.targets[0], ast.Name) and "validation_options" in unparse(n.value) and "update_enabled" in unparse(n.value)]
-    if saves:
-        nm = saves[0].targets[0].id
-        from ..cfg import CFG
-        from ..kinds import reach
-        g = CFG(dg.node)
-        offs = [n for n in g.nodes if isinstance(n.ast, ast.Assign) and "update_enabled" in unparse(n.ast.targets[0]) and unparse(n.ast.value) == "False"]
-        rest = lambda n: isinstance(n.ast, ast.Assign) and "update_enabled" in unparse(n.ast.targets[0]) and unparse(n.ast.value) == nm
-        ok = bool(offs) and all(g.exit not in reach(g, [m for m, _ in o.succ], avoid=rest) for o in offs)
+    from ..cfg import CFG
+    from ..kinds import reach
+
+    def reads_option(e):
+        """e reads the current update_enabled option: <options>.get("update_enabled", ..) / <options>["update_enabled"]"""
+        for x in ast.walk(e):
+            if isinstance(x, ast.Call) and call_name(x) == "get" and x.args and isinstance(x.args[0], ast.Constant) and x.args[0].value == "update_enabled":
+                return True
+            if _key_is(x, "update_enabled") and isinstance(x.ctx, ast.Load):
+                return True
+        return False
+
+    any_saves = False
+    checked = False
+    for f in closure(ctx, dg):
+        saved = {n.targets[0].id for n in ast.walk(f.node) if isinstance(n, ast.Assign) and isinstance(n.targets[0], ast.Name) and reads_option(n.value)}
+        saved |= {n.target.id for n in ast.walk(f.node) if isinstance(n, ast.AnnAssign) and isinstance(n.target, ast.Name) and n.value is not None and reads_option(n.value)}
+        any_saves = any_saves or bool(saved)
+        g = CFG(f.node)
+
+        def stores(n, pred):
+            return isinstance(n.ast, ast.Assign) and any(_key_is(t, "update_enabled") for t in n.ast.targets) and pred(n.ast.value)
+
+        offs = [n for n in g.nodes if stores(n, lambda v: isinstance(v, ast.Constant) and v.value is False)]
+        if not offs:
+            continue
+        checked = True
+        rest = lambda n: stores(n, lambda v: isinstance(v, ast.Name) and v.id in saved)  # noqa: E731
+        ok = bool(saved) and all(g.exit not in reach(g, [m for m, _ in o.succ], avoid=rest) for o in offs)
         res.inst("InputFile.data: update_enabled switched off is restored to the saved value on every normal path", nontrivial=True, ok=ok)
         if not ok:
             res.find("InputFile", "data", "update_enabled is switched off and not restored", dg.where,
                      "after the first read of .data, writes no longer update the enabled states from the values")
+    if any_saves and not checked:
+        res.inst("InputFile.data: update_enabled switched off is restored to the saved value on every normal path", nontrivial=True, ok=False)
+        res.find("InputFile", "data", "update_enabled is switched off and not restored", dg.where,
+                 "after the first read of .data, writes no longer update the enabled states from the values")
     return res
 
 
